@@ -2165,6 +2165,27 @@ class tensor:
             self.data[actualIdx] = value
 
     def _set_subtensor(self, key, value):  # noqa: PLR0912
+        # Slice bounds counted from the end refer to the extent before any growth
+        key = tuple(
+            (
+                slice(
+                    (
+                        max(self.shape[dim] + element.start, 0)
+                        if element.start is not None and element.start < 0
+                        else element.start
+                    ),
+                    (
+                        max(self.shape[dim] + element.stop, 0)
+                        if element.stop is not None and element.stop < 0
+                        else element.stop
+                    ),
+                    element.step,
+                )
+                if isinstance(element, slice) and dim < self.ndims
+                else element
+            )
+            for dim, element in enumerate(key)
+        )
         # Extract array of subscripts
         subs = key
         # Will the size change? If so we first need to resize x
